@@ -150,7 +150,7 @@ def recStr (buf : List UInt8) (bp : BufPos) : Option String := do
   let n := numSeqLines bp
   let o ← ownedSeq buf bp
   let x ← Write.faRefWrap h ls 3
-  some (s!"h={hexOf h}:l={linesStr ls}:r={hexOf raw}:n={n}:b={if n = 1 then 1 else 0}:o={hexOf o}:u={hexOf u}:" ++
+  some (s!"h={hexOf h}:l={linesStr ls}:r={hexOf raw}:n={n}:b={if n = 1 then 1 else 0}:o={hexOf o}:f={hexOf o}:u={hexOf u}:" ++
     s!"w={hexOf (Write.faRefWrite h ls)}:x={hexOf x}:" ++ idDescStr h)
 
 def ownedStr (buf : List UInt8) (bp : BufPos) : Option String := do
